@@ -1,6 +1,7 @@
 import FsnVerif.Model.Inotify
 import FsnVerif.Model.Diff
 import FsnVerif.Model.Kqueue
+import FsnVerif.Model.KqFull
 import FsnVerif.Proofs.DiffLemmas
 /-!
 # Line-protocol driver (core-only, compiled): runs the executable model on the op lines the
@@ -81,8 +82,93 @@ def tokLines (s : String) : List Diff.Line := if s == "-" then [] else s.toList.
 
 def opStr (o : Diff.OpCode) : String := s!"{o.tag}{o.i1},{o.i2},{o.j1},{o.j2}"
 
+
+/-! ## the full kqueue model (`Model/KqFull`): tape parsing and canonical printing -/
+namespace KqDrv
+open KqF
+
+def fsErr (s : String) : FsErr := if s == "!noent" then .noent else if s == "!acces" then .acces else .other
+def kindOf (s : String) : Kind :=
+  if s == "f" then .file else if s == "d" then .dir else if s == "l" then .symlink
+  else if s == "p" then .fifo else if s == "s" then .socket else .other
+def resKind (s : String) : Except FsErr Kind := if s.startsWith "!" then .error (fsErr s) else .ok (kindOf s)
+
+def parseAns (e : String) : Option Ans :=
+  match e.splitOn ":" with
+  | ["L", p, r] => some (.lstat (unhex p) (resKind r))
+  | ["K", p, r] => some (.readlink (unhex p) (if r.startsWith "!" then .error (fsErr r) else .ok (unhex r)))
+  | ["O", p, r] => some (.opn (unhex p) (if r.startsWith "!" then .error (fsErr r) else .ok (natOf r)))
+  | ["D", p, r] =>
+    if r.startsWith "!" then some (.readdir (unhex p) (.error (fsErr r)))
+    else
+      let body := (r.drop 1).toString
+      let ents := if body == "" then [] else (body.splitOn ",").filterMap fun x =>
+        match x.splitOn "~" with
+        | [n, k] => some (unhex n, resKind k)
+        | _ => none
+      some (.readdir (unhex p) (.ok ents))
+  | ["V", r] =>
+    let evs := if r == "" then [] else (r.splitOn ",").filterMap fun x =>
+      match x.splitOn "~" with
+      | [fd, fl] => some (natOf fd, bv32 fl)
+      | _ => none
+    some (.kevent evs)
+  | _ => none
+
+def parseTape (s : String) : List Ans := if s == "-" || s == "" then [] else (s.splitOn "+").filterMap parseAns
+
+def errS : KqF.Err → String
+  | .closed => "ErrClosed" | .nonExistent => "ErrNonExistentWatch"
+  | .fs .noent => "noent" | .fs .acces => "acces" | .fs .other => "other"
+
+def semi (l : List String) : String := if l.isEmpty then "-" else ";".intercalate l
+
+def tablesS (s : KS) : String :=
+  let wd := (sortBy (fun a b => a.1 < b.1) s.wd).map fun (k, w) =>
+    s!"{k}:{w.wd}:{hex w.name}:{hex w.linkName}:{if w.isDir then 1 else 0}:{showBv w.dirFlags}"
+  let path := (sortBy (fun a b => listLt a.1 b.1) s.path).map fun (p, fd) => s!"{hex p}:{fd}"
+  let bydir := (sortBy (fun a b => listLt a.1 b.1) s.byDir).map fun (d, fds) =>
+    s!"{hex d}:{".".intercalate ((sortBy (fun a b => a < b) fds).map toString)}"
+  let seen := (sortBy listLt s.seen).map hex
+  let user := (sortBy listLt s.byUser).map hex
+  s!"wd={semi wd} path={semi path} bydir={semi bydir} seen={semi seen} user={semi user}"
+
+def answer (ret : String) (w : W) (wl : List Path) : String :=
+  let e := ",".intercalate (w.events.map fun e => s!"{hex e.name}:{showBv e.op}")
+  let x := ",".intercalate (w.errors.map errS)
+  let f := ",".intercalate ((sortBy (fun a b => a < b) w.s.openFds).map toString)
+  let k := ",".intercalate ((sortBy (fun a b => a.1 < b.1) w.s.knotes).map fun (fd, fl) => s!"{fd}:{showBv fl}")
+  let b := match w.bad with
+    | some m => m
+    | none => if w.tape.isEmpty then "-" else s!"the implementation asked {w.tape.length} more question(s) than the model"
+  s!"R {ret} | E {e} | X {x} | T {tablesS w.s} | F {f} | K {k} | L {semi ((sortBy listLt wl).map hex)} | B {b}"
+
+def retS : Option KqF.Err → String
+  | none => "nil" | some e => errS e
+
+/-- one `kqf` line -/
+def run (s : KS) (cmd : List String) : KS × String :=
+  let w0 : W := { s := s }
+  match cmd with
+  | "add" :: p :: args =>
+    let r := add (unhex p) { w0 with tape := parseTape (kv args "tape") }
+    (r.2.s, answer (retS r.1) r.2 (watchList r.2).1)
+  | "remove" :: p :: args =>
+    let r := remove (unhex p) true { w0 with tape := parseTape (kv args "tape") }
+    (r.2.s, answer (retS r.1) r.2 (watchList r.2).1)
+  | "events" :: args =>
+    let r := reader 64 { w0 with tape := parseTape (kv args "tape") }
+    (r.2.s, answer "-" r.2 (watchList r.2).1)
+  | "close" :: _ =>
+    let r := close w0
+    (r.2.s, answer "nil" r.2 (watchList r.2).1)
+  | _ => (s, "bad-op")
+
+end KqDrv
+
 structure DState where
   lib : Lib := {}
+  kq : KqF.KS := {}
   eventer : Lib := {}     -- detached ring for `newevent`
   branches : List (String × Nat) := []
 
@@ -112,6 +198,10 @@ def mkEnv (args : List String) : Env :=
 
 def step (st : DState) (line : String) : DState × String :=
   match (line.splitOn " ").filter (· != "") with
+  | "reset" :: "kq" :: _ => ({ st with kq := {} }, "ok")
+  | "kqf" :: cmd =>
+    let (k, ans) := KqDrv.run st.kq cmd
+    ({ st with kq := k }, ans)
   | "reset" :: rest =>
     ({ st with lib := { enableRecurse := rest.contains "recurse" }, eventer := {} }, "ok")
   | "add" :: p :: ops :: nf :: args =>
